@@ -385,6 +385,9 @@ class StackPartition(Concat):
                 # check_meta ignores the index; a partition that keeps an index
                 # name different from the concatenated meta must be aligned too
                 match = list(df._meta.index.names) == list(self._meta.index.names)
+                if is_series_like(self._meta):
+                    # ... nor does it compare the names of Series
+                    match = match and df._meta.name == self._meta.name
             except (ValueError, TypeError):
                 match = False
 
